@@ -567,6 +567,10 @@ func (k Keeper) SetUpCollateralRedemptionForStableVault(ctx sdk.Context, appID u
 			k.vault.DeleteAddressFromAppExtendedPairVaultMapping(ctx, data.ExtendedPairVaultID, data.Id, data.AppId)
 			k.vault.UpdateTokenMintedAmountLockerMapping(ctx, appID, data.ExtendedPairVaultID, data.AmountOut, false)
 			k.vault.UpdateCollateralLockedAmountLockerMapping(ctx, appID, data.ExtendedPairVaultID, data.AmountIn, false)
+			// the collateral has left vault custody and the debt is registered for redemption: the stable-mint vault
+			// record (which is never deleted) no longer holds either
+			data.AmountIn, data.AmountOut = sdk.ZeroInt(), sdk.ZeroInt()
+			k.vault.SetStableMintVault(ctx, data)
 		}
 	}
 	esmStatus.StableVaultRedemptionStatus = true
